@@ -207,6 +207,7 @@ func (a *Stats06) add(b *Stats06) {
 	a.LeaseNotRenewed += b.LeaseNotRenewed
 	a.RealDeclined += b.RealDeclined
 	a.ExpiryReadBack += b.ExpiryReadBack
+	a.Imports += b.Imports
 }
 
 // Generate is kit.Generate; as a development aid (mutation experiments against
